@@ -749,11 +749,33 @@ def is_indeterminate_form(e: Expr, conds: Conditions) -> bool:
     else:
         raise NotImplementedError
 
+def has_zero_divisor(e: Expr) -> bool:
+    """Whether e contains a division whose divisor is not known to be non-zero
+    (it evaluates to zero, or cannot be evaluated).
+
+    """
+    if e.is_op() or e.is_fun():
+        if any(has_zero_divisor(arg) for arg in e.args):
+            return True
+    if e.is_divides() or (e.is_power() and e.args[1].is_const() and e.args[1].val < 0):
+        d = e.args[1] if e.is_divides() else e.args[0]
+        if not d.is_evaluable():
+            return False
+        try:
+            return abs(expr.eval_expr(d)) < 1e-12
+        except (ZeroDivisionError, ValueError, OverflowError, TypeError, NotImplementedError):
+            return True
+    return False
+
 def reduce_finite_limit(e: Expr, conds: Conditions) -> Expr:
     try:
         if is_indeterminate_form(e, conds):
             return e
         body = e.body.subst(e.var, e.lim)
+        # Substitution is only justified when no divisor vanishes at the limit
+        # point: normalize would turn 0 / sin(0) into 0.
+        if has_zero_divisor(body):
+            return e
         return normalize(body, conds)
     except ZeroDivisionError:
         return e
